@@ -8,7 +8,7 @@ use crate::{
     enumerate::{indices, sample_maps, shapes},
     json::J,
     par::{par_each, par_map},
-    refmodel::{close_coef, hyper_exact, printed_ok, RefArray},
+    refmodel::{close_coef, close_coef_n, hyper_exact, printed_ok, RefArray},
     subject::{join_usizes, parse_out, ref_from_spectrum, scs_from_ref, text_of},
     verdict::{catch, norm_msg, Part, Report, Tier},
 };
@@ -30,7 +30,7 @@ fn check_coef(big_n: u64, big_k: u64, n: u64, k: u64, viols: &mut Vec<Viol>) {
     let r = hyper_exact(big_n, big_k, n, k);
     match catch(|| hypergeometric_pmf(big_n, big_k, n, k)) {
         Ok(x) => {
-            if !x.is_finite() || !close_coef(x, r) || x < 0.0 {
+            if !x.is_finite() || !close_coef_n(x, r, big_n) || x < 0.0 {
                 let kind = if !x.is_finite() { "non-finite" } else { "wrong" };
                 if viols.len() < 4 {
                     viols.push((
@@ -1011,9 +1011,41 @@ pub fn run(tier: Tier) -> i32 {
             extra: vec![],
         });
     }
+    // targets given as individuals at and beyond the limits of the integer types: 2i+1 must not wrap
+    {
+        let x = RefArray::from_fn(&[9], |f, _| (f + 1) as f64);
+        let input = text_of(&x);
+        let mut n = 0u64;
+        for base in [1u128 << 31, 1 << 32, 1 << 62, 1 << 63, (1 << 64) - 8] {
+            for k in 0..8u128 {
+                let v = base + k;
+                if v >= 1 << 64 {
+                    continue;
+                }
+                n += 1;
+                let arg = v.to_string();
+                let o = run_sfs(&["view", "-p", &arg], Stdin::Bytes(input.as_bytes()), &scratch);
+                if o.ok() || !o.stdout.is_empty() || !o.diagnosed_error() {
+                    rep.violation(
+                        "C03|cli|invalid-target-not-rejected|huge-individuals".to_string(),
+                        format!("view -p {arg} on a 9-entry spectrum: {} stdout {:?} stderr {:?}", o.status_str(), o.stdout_str(), o.stderr_str().trim()),
+                        J::obj([("kind", J::s("c03-huge-p")), ("individuals", J::s(arg.clone()))]),
+                    );
+                }
+            }
+        }
+        rep.part(Part {
+            name: "cli: absurd numbers of individuals".into(),
+            evaluations: n,
+            nontrivial: n,
+            note: "view -p i on a 9-entry spectrum for i = 2^31 .. 2^31+7, 2^32 .., 2^62 .., 2^63 .., 2^64-8 .. 2^64-1: every one is larger than the source and must be rejected".into(),
+            exhaustive: true,
+            extra: vec![],
+        });
+    }
     rep.assumptions = vec![
         "reference hyper_exact: exact u128 binomials for N<=120, compensated ln-factorial sums above (relative accuracy ~1e-11)".into(),
-        "comparison tolerance |x-r| <= 1e-8|r| + 1e-13 separates rounding from a mis-indexed weight (DESIGN 2.9)".into(),
+        "single coefficients are compared relatively, also in the far tails: 1e-11 for N <= 170, 1e-10 for N <= 5000, 1e-8 above (the unchanged tree is within 1e-13 / 2e-12 of the exact value); sums over many coefficients within 1e-8|r| + 1e-13 (DESIGN 2.9)".into(),
     ];
     let _ = Scs::from_zeros(1usize);
     rep.finish()
